@@ -1346,5 +1346,57 @@ def canonicalise_temps(mname, tree, ref):
     for q, f in functions_of(tree):
         if q not in ref_funcs:
             continue
+        _accumulators_to_comprehensions(f, set(ref_locals.get(q) or ()), done, q)
         _inline_new_temps(f, set(ref_locals.get(q) or ()), done, q)
     return done
+
+
+def _accumulators_to_comprehensions(func, known, done, qual):
+    """A NEW local that is an empty `{}` / `[]` / `set()` filled by the very next statement, a `for` loop whose whole body (under
+    `if`s without else) is `D[K] = V` / `L.append(V)` / `S.add(V)`, and not touched otherwise inside the loop, is the comprehension
+    `{K: V for T in I if C}` it was written out from: the elements, their order and the evaluation order are the same.  The loop
+    variables must not be used after the loop (a comprehension does not leak them)."""
+    for lst in _blocks(func):
+        i = 0
+        while i + 1 < len(lst):
+            a, lp = lst[i], lst[i + 1]
+            i += 1
+            if not (isinstance(a, ast.Assign) and len(a.targets) == 1 and isinstance(a.targets[0], ast.Name) and a.targets[0].id not in known):
+                continue
+            nm = a.targets[0].id
+            v = a.value
+            kind = 'dict' if isinstance(v, ast.Dict) and not v.keys else 'list' if isinstance(v, ast.List) and not v.elts else \
+                'set' if isinstance(v, ast.Call) and isinstance(v.func, ast.Name) and v.func.id == 'set' and not v.args and not v.keywords else None
+            if kind is None or not (isinstance(lp, ast.For) and not lp.orelse):
+                continue
+            conds, body = [], lp.body
+            while len(body) == 1 and isinstance(body[0], ast.If) and not body[0].orelse:
+                conds.append(body[0].test)
+                body = body[0].body
+            if len(body) != 1:
+                continue
+            st = body[0]
+            comp = None
+            gen = lambda: [ast.comprehension(target=lp.target, iter=lp.iter, ifs=conds, is_async=0)]
+            if kind == 'dict' and isinstance(st, ast.Assign) and len(st.targets) == 1 and isinstance(st.targets[0], ast.Subscript) \
+                    and isinstance(st.targets[0].value, ast.Name) and st.targets[0].value.id == nm:
+                comp = ast.DictComp(key=st.targets[0].slice, value=st.value, generators=gen())
+            elif kind in ('list', 'set') and isinstance(st, ast.Expr) and isinstance(st.value, ast.Call) and isinstance(st.value.func, ast.Attribute) \
+                    and isinstance(st.value.func.value, ast.Name) and st.value.func.value.id == nm and len(st.value.args) == 1 and not st.value.keywords \
+                    and st.value.func.attr == ('append' if kind == 'list' else 'add'):
+                comp = (ast.ListComp if kind == 'list' else ast.SetComp)(elt=st.value.args[0], generators=gen())
+            if comp is None:
+                continue
+            uses_in_loop = sum(1 for x in ast.walk(lp) if isinstance(x, ast.Name) and x.id == nm)
+            if uses_in_loop != 1:
+                continue
+            tvars = {x.id for x in ast.walk(lp.target) if isinstance(x, ast.Name)}
+            later = [x for s2 in lst[i + 1:] for x in ast.walk(s2) if isinstance(x, ast.Name) and x.id in tvars]
+            elsewhere = [x for x in _own(func) if isinstance(x, ast.Name) and x.id in tvars and not any(x is y for y in ast.walk(lp))]
+            if later or elsewhere:
+                continue
+            new = ast.Assign(targets=[ast.Name(id=nm, ctx=ast.Store())], value=comp)
+            ast.copy_location(new, lp)
+            ast.fix_missing_locations(new)
+            lst[i - 1:i + 1] = [new]
+            done.append((qual, nm, '<accumulating loop read as the comprehension it spells out>'))
